@@ -10,12 +10,65 @@
   finish within the fuel (or a `ValueError`).
 -/
 import Ptk.Model.C12
+import Ptk.Model.C12Steps
 namespace Ptk.C12
 
+/-- the constructor arguments of an explicit `Dimension(min, max, weight, preferred)` given as
+    `width=` / `height=` (`to_dimension`: `None` = all four absent, an int `n` = `min = max =
+    preferred = n`, a callable = what it returns) -/
+structure Spec where
+  mn : Option Nat
+  mx : Option Nat
+  w : Option Nat
+  pr : Option Nat
+deriving Repr, DecidableEq, Inhabited
+
+/-- `Window._merge_dimensions(dimension, get_preferred, dont_extend)`: `content` is what the
+    control reports as its preferred size (`None` for a `DummyControl`), only asked for when the
+    window has no explicit preferred size; the preferred size is kept inside the SPECIFIED bounds;
+    with `dont_extend` it also becomes the maximum.  `none` = `ValueError` of `Dimension(...)`. -/
+def mergeDims (s : Spec) (content : Option Nat) (dontExtend : Bool) : Option Dim :=
+  match mkDim s.mn s.mx s.w s.pr with
+  | none => none
+  | some d =>
+    let p0 : Option Nat := if s.pr.isSome then some d.pref else content
+    let p : Option Nat := p0.map fun v => clampSpec v d s.mn s.mx
+    let mx : Option Nat :=
+      if dontExtend && p.isSome then p.map (Nat.min d.max) else s.mx.map fun _ => d.max
+    mkDim (s.mn.map fun _ => d.min) mx (some d.weight) p
+
+/-- `AnyDimension`: `None`, an int, a `Dimension` (given by its constructor arguments) or a
+    callable returning one of these -/
+inductive AnyDim
+  | none
+  | int (n : Nat)
+  | dim (s : Spec)
+  | call (f : AnyDim)
+deriving Repr, Inhabited
+
+/-- `to_dimension(value)`; `none` = the `ValueError` of constructing an impossible `Dimension` -/
+def toDimension : AnyDim → Option Dim
+  | .none => mkDim none none none none
+  | .int n => Dim.exact n
+  | .dim s => mkDim s.mn s.mx s.w s.pr
+  | .call f => toDimension f
+
+/-- `Dimension.zero()` -/
+def Dim.zero : Option Dim := Dim.exact 0
+
 inductive Node
+  /-- a `Window` with a `DummyControl` whose width / height are the given dimensions -/
   | win (id : Nat) (w h : Dim)
   | hsplit (al : Align) (pad : Dim) (cs : List Node)
   | vsplit (al : Align) (pad : Dim) (cs : List Node)
+  /-- a `Window(content, width=sw, height=sh, dont_extend_width=dew, dont_extend_height=deh)`
+      whose control prefers `cw` columns and `ch` rows (`none`: no preference) -/
+  | winx (id : Nat) (sw sh : Spec) (cw ch : Option Nat) (dew deh : Bool)
+  /-- `ConditionalContainer(content, filter)` with the current value of the filter -/
+  | cond (on : Bool) (c : Node)
+  /-- a split constructed with `width=` / `height=` (`some` = `to_dimension` of the argument):
+      the given dimension is reported instead of the children's; drawing is unaffected -/
+  | sized (w h : Option Dim) (c : Node)
 deriving Repr, Inhabited
 
 structure Rect where
@@ -38,6 +91,12 @@ def dPref0 : Dim := (mkDim none none none (some 0)).getD default
 /-- id used for windows that are not user windows -/
 def auxId : Nat := 0
 
+/-- the tag under which a container is drawn when it is a window itself -/
+def tagOf : Node → Tag
+  | .win id _ _ => .user id
+  | .winx id _ _ _ _ _ _ => .user id
+  | _ => .user auxId      -- a nested container draws its own windows
+
 /-- `_all_children` of a split on the level of nodes. The padding windows are
     `Window(height=padding)` (HSplit) / `Window(width=padding)` (VSplit); the fillers are
     `Window(width=Dimension(preferred=0))` in both classes. Tags are recovered from the
@@ -46,9 +105,6 @@ def allNodes (horizontal : Bool) (al : Align) (pad : Dim) (cs : List Node) : Lis
   let filler : Tag × Node := (.filler, .win auxId dPref0 dNone)
   let padw : Tag × Node :=
     (.pad, if horizontal then .win auxId dNone pad else .win auxId pad dNone)
-  let tagOf : Node → Tag := fun c => match c with
-    | .win id _ _ => .user id
-    | _ => .user auxId      -- a nested split draws its own windows
   let pre := if al = .center ∨ al = .stop then [filler] else []
   let mid := (pre ++ cs.flatMap fun c => [(tagOf c, c), padw]).dropLast
   let post := if al = .center ∨ al = .start then [filler] else []
@@ -65,7 +121,13 @@ def mapM? {α β : Type} (f : α → Option β) : List α → Option (List β)
 /-- `container.preferred_width(max_available_width)` -/
 def prefW (fuel : Nat) : Nat → Node → Nat → Option Dim
   | _, .win _ w _, _ => some w
+  | _, .winx _ sw _ cw _ dew _, _ => mergeDims sw cw dew
   | 0, _, _ => some dNone
+  | d + 1, .cond on c, avail => if on then prefW fuel d c avail else Dim.exact 0
+  | d + 1, .sized w _ c, avail =>
+    match w with
+    | some w => some w
+    | none => prefW fuel d c avail
   | d + 1, .hsplit _ _ cs, avail =>
     if cs.isEmpty then some dNone
     else match mapM? (fun c => prefW fuel d c avail) cs with
@@ -92,7 +154,13 @@ def divideWidths (fuel d : Nat) (al : Align) (pad : Dim) (cs : List Node) (width
 /-- `container.preferred_height(width, max_available_height)` -/
 def prefH (fuel : Nat) : Nat → Node → Nat → Nat → Option Dim
   | _, .win _ _ h, _, _ => some h
+  | _, .winx _ _ sh _ ch _ deh, _, _ => mergeDims sh ch deh
   | 0, _, _, _ => some dNone
+  | d + 1, .cond on c, width, availH => if on then prefH fuel d c width availH else Dim.exact 0
+  | d + 1, .sized _ h c, width, availH =>
+    match h with
+    | some h => some h
+    | none => prefH fuel d c width availH
   | d + 1, .hsplit al pad cs, width, availH =>
     match mapM? (fun c => prefH fuel d c.2 width availH) (allNodes true al pad cs) with
     | none => none
@@ -115,11 +183,26 @@ def remRects (mk : Nat × Nat → Rect) (rem : Option (Nat × Nat)) : List (Tag 
   | some p => if visible (mk p) then [(.remaining, mk p)] else []
   | none => []
 
+/-- `Window.write_to_screen`: the write position is reduced to the preferred width / height when
+    `dont_extend_width` / `dont_extend_height` is set (the height is asked for at the reduced
+    width) -/
+def winRect (sw sh : Spec) (cw ch : Option Nat) (dew deh : Bool) (r : Rect) : Option Rect :=
+  match mergeDims sw cw dew, mergeDims sh ch deh with
+  | some dw, some dh =>
+    some ⟨r.x, r.y, if dew then Nat.min r.w dw.pref else r.w, if deh then Nat.min r.h dh.pref else r.h⟩
+  | _, _ => none
+
 /-- `container.write_to_screen(..., WritePosition(x, y, w, h), ...)`: the windows that get drawn
     (entered into `Screen.visible_windows_to_write_positions`), in drawing order. -/
 def render (fuel : Nat) : Nat → Tag → Node → Rect → Option (List (Tag × Rect))
   | _, t, .win _ _ _, r => some (if visible r then [(t, r)] else [])
+  | _, t, .winx _ sw sh cw ch dew deh, r =>
+    match winRect sw sh cw ch dew deh r with
+    | some q => some (if visible q then [(t, q)] else [])
+    | none => none
   | 0, _, _, _ => some []
+  | d + 1, _, .cond on c, r => if on then render fuel d (tagOf c) c r else some []
+  | d + 1, _, .sized _ _ c, r => render fuel d (tagOf c) c r
   | d + 1, _, .hsplit al pad cs, r =>
     let all := allNodes true al pad cs
     -- `_divide_heights`
@@ -165,7 +248,37 @@ def render (fuel : Nat) : Nat → Tag → Node → Rect → Option (List (Tag ×
 /-- height of the tree (a sufficient depth bound) -/
 def Node.depth : Node → Nat
   | .win _ _ _ => 0
+  | .winx _ _ _ _ _ _ _ => 0
+  | .cond _ c => 1 + c.depth
+  | .sized _ _ c => 1 + c.depth
   | .hsplit _ _ cs => 1 + (cs.attach.map fun ⟨c, _⟩ => c.depth).foldl Nat.max 0
   | .vsplit _ _ cs => 1 + (cs.attach.map fun ⟨c, _⟩ => c.depth).foldl Nat.max 0
+
+/-- the largest weight that any window or padding of the tree carries -/
+def Node.maxW : Node → Nat
+  | .win _ w h => Nat.max w.weight h.weight
+  | .winx _ sw sh _ _ _ _ =>
+    Nat.max (sw.w.getD Gen.C12.defaultWeight) (sh.w.getD Gen.C12.defaultWeight)
+  | .cond _ c => c.maxW
+  | .sized w h c =>
+    Nat.max c.maxW (Nat.max ((w.map (·.weight)).getD 0) ((h.map (·.weight)).getD 0))
+  | .hsplit _ pad cs => (cs.attach.map fun ⟨c, _⟩ => c.maxW).foldl Nat.max pad.weight
+  | .vsplit _ pad cs => (cs.attach.map fun ⟨c, _⟩ => c.maxW).foldl Nat.max pad.weight
+
+/-- the longest `_all_children` list of any split of the tree: children, paddings, two fillers -/
+def Node.maxKids : Node → Nat
+  | .win _ _ _ => 0
+  | .winx _ _ _ _ _ _ _ => 0
+  | .cond _ c => c.maxKids
+  | .sized _ _ c => c.maxKids
+  | .hsplit _ _ cs => (cs.attach.map fun ⟨c, _⟩ => c.maxKids).foldl Nat.max (2 * cs.length + 1)
+  | .vsplit _ _ cs => (cs.attach.map fun ⟨c, _⟩ => c.maxKids).foldl Nat.max (2 * cs.length + 1)
+
+/-- A fuel that is enough for every division that rendering the tree into `r` performs
+    (`Ptk.Props.C12TreeFuel.render_total`): no division has more than `maxKids` entries, a weight
+    above `maxW` (or the default weight), or more than `max r.w r.h` cells to hand out. -/
+def treeFuel (n : Node) (w h : Nat) : Nat :=
+  Nat.max w h * (n.maxKids * (Nat.max n.maxW (Nat.max 1 Gen.C12.defaultWeight) + 1))
+    + 3 * n.maxKids + 3
 
 end Ptk.C12
